@@ -197,6 +197,38 @@ example : execVerbText (.openLine true) .null {} ⟨[['a'], ['\n']], 0, false⟩
     = .ok ⟨['a', '\n', '\n'], []⟩ := by rfl
 example : openLineIdx true ⟨[['a'], ['\n']], 0, false⟩ = 2 := by decide
 
+/-- **One `J`** removes exactly a stretch that starts with the line terminator of the cursor line (followed
+only by what `blanksFwd` skipped: the blanks leading the next line) and puts at most one space in its place;
+the text before and after is preserved, and the cursor goes to the join. -/
+theorem join_frame (lb lb' : LB) (h : joinOnce lb = some lb') :
+    ∃ i j, i < j ∧ isNlAtGs lb.gs i = true ∧ lb'.cur = i ∧
+      (lb'.gs = lb.gs.take i ++ lb.gs.drop j ∨ lb'.gs = lb.gs.take i ++ [[' ']] ++ lb.gs.drop j) := by
+  unfold joinOnce at h
+  cases ht : thisLine lb with
+  | none => simp [ht] at h
+  | some r =>
+    obtain ⟨st, en⟩ := r
+    simp only [ht] at h
+    split at h
+    · exact absurd h (by simp)
+    · rename_i hc
+      simp only [Bool.or_eq_true, beq_iff_eq, decide_eq_true_eq, Bool.not_eq_eq_eq_not, Bool.not_true, not_or,
+        Nat.not_le, Bool.not_eq_false] at hc
+      obtain ⟨⟨hen, _⟩, hnl⟩ := hc
+      have hge := blanksFwd_ge lb.gs (lb.gs.length - en + 1) en
+      simp only [Option.some.injEq] at h
+      refine ⟨en - 1, blanksFwd lb.gs (lb.gs.length - en + 1) en, by omega, hnl, by rw [← h], ?_⟩
+      rw [← h]
+      split
+      · right; simp
+      · left; simp
+
+/-- `[N]J` never fails and only ever shortens the text or keeps its length. -/
+example : (joinLines ⟨[['a'], ['\n'], [' '], ['b'], ['\n'], ['c'], ['\n']], 0, true⟩ 2).gs.flatten = ['a', ' ', 'b', ' ', 'c', '\n'] := by decide
+example : (joinLines ⟨[['a'], [' '], ['\n'], [')'], ['\n']], 0, true⟩ 1).gs.flatten = ['a', ' ', ')', '\n'] := by decide
+example : (joinLines ⟨[['a'], ['\n'], ['\n'], ['b'], ['\n']], 0, true⟩ 1).gs.flatten = ['a', '\n', 'b', '\n'] := by decide
+example : joinOnce ⟨[['a'], ['\n']], 0, true⟩ = none := by decide
+
 /-- **Typing a character** inserts exactly that character at the cursor. -/
 theorem insert_char_frame (lb : LB) (mk : MK) (reg : RegName) (regs : Regs) (c : Char) :
     execVerbText (.insertChar c) mk reg lb regs
